@@ -369,6 +369,13 @@ DEVICE_TYPE_SPELLINGS = {
 }
 
 
+def designator_format(desig):
+    """'kind' (first length of the spec) or 'kind:length' -> (DESIGNATOR TYPE, format of the designator bytes)"""
+    kind, _, n = desig.partition(":")
+    t, mk, lens = D.DESIGNATORS[kind]
+    return t, mk(int(n) if n else lens[0])
+
+
 class XCopyUnit(_ListUnit):
     def __init__(self, lid4):
         self.lid4 = lid4
@@ -401,6 +408,10 @@ class XCopyUnit(_ListUnit):
             {"targets": [[0x03, 0, "naa-5"], [0x0E, 0, "naa-6"]], "segments": [[0x0D, 0], [0x0B, 0], [0x0C, 0]], "inline": 3},
             {"targets": [[0x00, 0, "eui64-8"]], "segments": [[0x02, 2]], "inline": 0},
         ]
+        # the DESIGNATOR field of the identification descriptor holds up to 20 bytes: every length 17..20 and the
+        # variable-length kinds at their maximum
+        sh.append({"targets": [[0x00, 0, "t10-vendor-id:20"], [0x00, 0, "vendor-specific:17"]], "segments": [[0x02, 0]], "inline": 0})
+        sh.append({"targets": [[0x01, 1, "vendor-specific:20"], [0x00, 0, "t10-vendor-id:19"], [0x00, 0, "scsi-name-string:18"]], "segments": [], "inline": 0})
         if not self.lid4:
             # every peripheral device type of the SPC-4 table occurs in some shape (00 01 03 04 05 07 0E)
             sh.append({"targets": [[0x04, 0, "naa-6"], [0x07, 1, "naa-5"]], "segments": [[0x02, 0]], "inline": 0})
@@ -442,9 +453,9 @@ class XCopyUnit(_ListUnit):
             d["t%d.block_length" % i] = U(24)
             if dt == 0x01:
                 d["t%d.fixed" % i] = U(1)
-            t, mk, lens = D.DESIGNATORS[desig]
+            t, fmt = designator_format(desig)
             fixed = {"naa": D.NAA_FIXED[desig]} if desig in D.NAA_FIXED else {}
-            d.update(field_inputs(mk(lens[0]), "t%d.d." % i, fixed=fixed))
+            d.update(field_inputs(fmt, "t%d.d." % i, fixed=fixed))
         for i, (code, spell) in enumerate(case["segments"]):
             d.update(field_inputs(self.seg[code], "s%d." % i, fixed={"descriptor_type_code": code}))
         if case["inline"]:
@@ -452,8 +463,7 @@ class XCopyUnit(_ListUnit):
         return d
 
     def _target(self, i, dt, spell, desig, a):
-        t, mk, lens = D.DESIGNATORS[desig]
-        fmt = mk(lens[0])
+        t, fmt = designator_format(desig)
         fixed = {"naa": D.NAA_FIXED[desig]} if desig in D.NAA_FIXED else {}
         dv = field_values(fmt, a, "t%d.d." % i, fixed=fixed)
         dbytes = fmt.encode(dv)
